@@ -70,11 +70,15 @@ func relClose() {
 	relSt = nil
 }
 
-func relReset() {
+func relReset() { relResetSub("") }
+
+// relResetSub: the world of the release engine with the server's subDomainHost set (engine "grprel")
+func relResetSub(subDomainHost string) {
 	relClose()
 	st := &releaseState{ctls: map[int]*server.Control{}}
 	cfg := &v1.ServerConfig{}
 	cfg.Complete()
+	cfg.SubDomainHost = subDomainHost
 	cfg.ProxyBindAddr = "127.0.0.1"
 	cfg.VhostHTTPPort = 1 // only consulted by validation ("is the feature enabled")
 	cfg.VhostHTTPSPort = 1
